@@ -143,6 +143,8 @@ func (h *handler) oauthCode(resp http.ResponseWriter, req *http.Request) {
 	inOrg, err := h.userInOrg(accessToken)
 	if err != nil {
 		log.Errorf("Unable to check if user is in org, re-authorizing: %v", err)
+		h.requestAuthorization(resp, req)
+		return
 	} else if !inOrg {
 		log.Errorf("User not in needed org")
 		// TODO: figure out what to do
